@@ -229,7 +229,9 @@ def make_inclass_cases(seed, n, start=0, knobs=None):
         spec = gen.gen_inclass(rng, kn)
         ok, problems, clause = gen.certificate(spec)
         if not ok:
-            raise vlib.HarnessError("in-class generator self-check failed: %s" % problems[:3])
+            # the generator's own self-check: a spec that is not provably inside the class is not used (never judged)
+            vlib.log("[gen] spec %d of seed %d dropped by the class certificate: %s" % (i - 1, seed, problems[:2]))
+            continue
         prng = random.Random("plan-%d-%d" % (seed, i))
         pl = planmod.build_plan(spec, prng)
         boot_runs = []
